@@ -42,7 +42,7 @@ func (c20) RealStub() map[string]string {
 }
 func (c20) Runs(t Tier) int {
 	if t == Thorough {
-		return 40000
+		return 150000
 	}
 	return 2500
 }
